@@ -7,6 +7,7 @@ import (
 	"os"
 	"runtime"
 	"runtime/debug"
+	"strings"
 	"testing"
 	"time"
 
@@ -60,6 +61,7 @@ type Record struct {
 }
 
 var nRuns int
+var curIndex uint64
 
 func TestMain(m *testing.M) {
 	graphql.SetSimHook(libHook)
@@ -113,6 +115,14 @@ func TestSim(t *testing.T) {
 		wr.WriteByte('\n')
 		wr.Flush()
 	}
+	onStall = func(scn json.RawMessage, tape *Tape, detail string) {
+		o := &Outcome{}
+		o.Violate(job.Prop+"/deadlock-on-lock", "%s", detail)
+		if tape != nil {
+			o.Tape = tape.Used
+		}
+		emit(&Record{Prop: job.Prop, Seed: curIndex, Enum: -1, Scenario: scn, Outcome: o}, true)
+	}
 	switch job.Mode {
 	case "info":
 		line, _ := json.Marshal(map[string]interface{}{"prop": job.Prop, "enum_size": p.EnumSize(job.Tier), "race_build": RaceBuild})
@@ -154,6 +164,7 @@ func TestSim(t *testing.T) {
 				break
 			}
 			idx := job.Start + uint64(i)*job.Stride
+			curIndex = idx
 			if cursor != nil {
 				cursor.WriteAt([]byte(fmt.Sprintf("%020d\n", idx)), 0)
 			}
@@ -234,8 +245,20 @@ func runGuarded(t *testing.T, p Prop, scn json.RawMessage, tape *Tape) (o *Outco
 	go func() {
 		select {
 		case <-done:
-		case <-time.After(60 * time.Second):
-			fmt.Fprintf(os.Stderr, "WATCHDOG: run exceeded 60s real time; scenario=%s\n", scn)
+		case <-time.After(45 * time.Second):
+			// Nothing in a run takes real time, so a stall means a goroutine is
+			// blocked in a way synctest cannot see through: a sync.Mutex wait.
+			// No task ever parks while holding a library lock, so a goroutine
+			// that sits in a library mutex for 45 s of real time is deadlocked
+			// (a lock taken twice, or a cycle). Anything else is harness trouble.
+			buf := make([]byte, 4<<20)
+			buf = buf[:runtime.Stack(buf, true)]
+			if fn := lockedLibraryFrame(string(buf)); fn != "" && onStall != nil {
+				onStall(scn, tape, "a goroutine has been blocked for 45 s of real time acquiring a lock in "+fn+" while every other goroutine of the run is parked or blocked: deadlock")
+				fmt.Fprintf(os.Stderr, "WATCHDOG-DEADLOCK: %s\n", fn)
+				os.Exit(3)
+			}
+			fmt.Fprintf(os.Stderr, "WATCHDOG: run exceeded 45s real time; scenario=%s\n%s\n", scn, buf)
 			os.Exit(3)
 		}
 	}()
@@ -334,6 +357,28 @@ func minimise(t *testing.T, p Prop, scn json.RawMessage, tape []uint32, class st
 		}
 	}
 	return scn, tape, best, tried
+}
+
+// onStall is set by TestSim: it records a deadlock violation before the worker exits.
+var onStall func(scn json.RawMessage, tape *Tape, detail string)
+
+// lockedLibraryFrame returns the library function in which some goroutine is
+// waiting for a sync.Mutex / RWMutex, or "".
+func lockedLibraryFrame(dump string) string {
+	for _, g := range strings.Split(dump, "\n\n") {
+		if !strings.Contains(g, "sync.(*Mutex).Lock") && !strings.Contains(g, "sync.(*RWMutex).Lock") && !strings.Contains(g, "sync.(*RWMutex).RLock") {
+			continue
+		}
+		for _, l := range strings.Split(g, "\n") {
+			if strings.HasPrefix(l, "github.com/graphql-go/graphql") && !strings.Contains(l, "/verifmo.") {
+				if i := strings.LastIndexByte(l, '('); i > 0 {
+					return l[:i]
+				}
+				return l
+			}
+		}
+	}
+	return ""
 }
 
 func raceReported(o *Outcome) bool {
